@@ -126,6 +126,9 @@ static void named_calls_check(void)
     NR1(spifhash_jenkins, ref_lookup2); NR1(spifhash_jenkinsLE, ref_lookup2); NR1(spifhash_rotating, ref_rotating); NR1(spifhash_one_at_a_time, ref_oaat); NR1(spifhash_fnv, ref_fnv1a);
     { uint32_t w2[4]; uint32_t h1 = spifhash_jenkins32(k, 3, 7); k[5] ^= 0x5a; uint32_t h2 = spifhash_jenkins32(k, 3, 7); memcpy(w2, k, 16); uint32_t e = ref_lookup2_words(w2, 3, 7); k[5] ^= 0x5a;
       if (h2 != e) FAIL("spifhash_jenkins32", "model:value", "key changed between two calls", "spifhash_jenkins32(key, 3, 7) after one byte of the key changed gives 0x%08x (0x%08x before the change), reference 0x%08x", h2, h1, e); }
+    /* the empty key wherever it lives, a NULL pointer included: nothing is read, the answer is the hash of no bytes */
+#define NE1(fn, ref) do { for (int q = 0; q < 4; q++) { uint32_t g_ = fn((spif_uint8_t *) NULL, 0, SEEDS[q]), e_ = ref(K, 0, SEEDS[q]); if (g_ != e_) FAIL(#fn, "model:value", "empty key", #fn "(NULL, 0, 0x%08x) gives 0x%08x, the hash of the empty key is 0x%08x", SEEDS[q], g_, e_); } } while (0)
+    NE1(spifhash_jenkins, ref_lookup2); NE1(spifhash_jenkinsLE, ref_lookup2); NE1(spifhash_rotating, ref_rotating); NE1(spifhash_one_at_a_time, ref_oaat); NE1(spifhash_fnv, ref_fnv1a);
     free(k);
 }
 static void case_fn(uint64_t idx, void *ctx)
